@@ -11,7 +11,7 @@ mk() { id="$1"; prop="$2"; file="$3"; expr="$4"; expect="$5"
 }
 S=internal/server; J=internal/jobs
 mk c06-at-boundary     C06 $S/store.go 's|\t\tif at < recordedTime {|\t\tif at <= recordedTime {|' 'no-eligible-version-is-passed-over'
-mk c07-lookup-deleted  C07 $S/store.go 's|\t\tif datasetDeleted \|\| !datasetIncluded {|\t\tif !datasetIncluded {|' 'versions-of-deleted-datasets-are-never-candidates'
+mk c07-lookup-deleted  C07 $S/store.go 's|\t\tif datasetDeleted \|\| !datasetIncluded {|\t\tif datasetDeleted \&\& !datasetIncluded {|' 'versions-of-deleted-datasets-are-never-candidates'
 mk c01-scope-ignored   C01 $S/store.go 's|\t\tif datasetDeleted \|\| !datasetIncluded {|\t\tif datasetDeleted {|' 'versions-outside-the-requested-datasets'
 mk c19-config-dropped  C19 $S/dsmanager.go 's|\t\tds.ProxyConfig = createDatasetConfig.ProxyDatasetConfig|\t\tds.ProxyConfig = nil|' 'persisted-record-carries-the-requested-configuration'
 mk c18-token-reset     C18 $J/source/multi_source.go 's|d.DependencyTokens\[dep.Dataset\] = \&StringDatasetContinuation{Token: strconv.Itoa(int(continuation))}|d.DependencyTokens[dep.Dataset] = \&StringDatasetContinuation{Token: strconv.Itoa(int(continuation) + 1)}|' 'dependency-token-advanced-to-the-position'
